@@ -59,6 +59,15 @@ func (l *elemLoc) load(st *State) Val { return l.r.sliceElem(st, l.s, l.idx) }
 func (l *elemLoc) store(st *State, v Val) {
 	r := l.r
 	site := fmt.Sprintf("w%d", r.siteOrd[l.n])
+	if l.s.Obj == nil && l.s.From != nil && st.fresh(l.s.From.ref) {
+		// element write through a slice held in a field of an object allocated in this call: update the field's value
+		r.obligeStatic(st, "frame", site, true, l.n, "element write targets ."+l.s.From.fi.name+" of an object allocated in this call")
+		nv := *l.s
+		nv.Arr = sx("store", l.s.Arr, add(l.s.Off, l.idx), r.toTerm(st, v, l.s.Elem))
+		nv.From = nil
+		l.s.From.store(st, Val{K: KSlice, S: &nv})
+		return
+	}
 	if l.s.Obj == nil {
 		r.obligeStatic(st, "frame", site, false, l.n, "element write through a slice that is not a locally owned object (owner: "+l.s.Own.String()+")")
 		return
